@@ -69,7 +69,7 @@ RULES = [
 ]
 
 MANIFEST = {
-    "text": "Static decision: all five comparison traits of GenericPurl, PurlParts, Qualifiers and PackageType are compiler-derived over the same fields (structural, consistent, total); the qualifier-key invariant makes the hand-written case-insensitive comparisons coincide with the derived ones; Display is injective on the parts by the agreement simulation over the builder domain (every separator position determined by the string, '%' escaped everywhere), and reads nothing but the type and the parts.",
+    "text": "Static decision: all five comparison traits of GenericPurl, PurlParts, Qualifiers and PackageType are compiler-derived over the same fields (structural, consistent, total); the qualifier-key invariant makes the hand-written case-insensitive comparisons coincide with the derived ones; Display is injective on the parts by the agreement simulation over the builder domain (every separator position determined by the string, '%' escaped everywhere), and reads nothing but the type and the parts. Injectivity of the raw type token rests on the computed type alphabet (no separator, nothing that needs escaping).",
     "note": "Trusted: rustc derive semantics, MIR/HIR extraction, callee semantics of encoding. Hash values are not decided, only consistency of equality/hash/order.",
     "technique": "HIR automatically_derived attribute check over a (type x trait) table; representation-invariant rules; agreement simulation as an injectivity argument",
     "design_ref": "DESIGN.md 5.19",
